@@ -131,7 +131,9 @@ def _plain_str(node: list) -> Tuple[str, bool]:
             closed = False
             continue
         if not ch:
-            parts.append(v)
+            # ISLa spells an epsilon expansion either as a child "" or as a nonterminal
+            # with an empty child list (Earley parser / fuzzingbook convention)
+            parts.append("" if _RE_NT.fullmatch(v) else v)
         else:
             stack.extend(reversed(ch))
     return "".join(parts), closed
@@ -148,8 +150,8 @@ def _conforms(node: list, grammar: Dict[str, List[str]]) -> Optional[str]:
         if ch is None:
             return f"open leaf {v!r}"
         if not ch:
-            if v in grammar:
-                return f"nonterminal {v!r} without children"
+            if v in grammar and "" not in grammar[v]:
+                return f"nonterminal {v!r} without children but without epsilon alternative"
             continue
         if v not in grammar:
             return f"terminal {v!r} with children"
